@@ -268,11 +268,11 @@ Proof.
   - apply ajoin_sound_r, IH, Hin.
 Qed.
 
-Theorem abs_sound t w : den t w -> G (abs t) w.
+Theorem abs_sound kinds t w : den kinds t w -> G (abs (map aklang kinds) t) w.
 Proof.
   induction 1; cbn [abs].
   - apply aword_sound.
-  - apply aklang_sound. assumption.
+  - change Bot with (aklang []). rewrite map_nth. apply aklang_sound. assumption.
   - apply acat_sound; assumption.
   - apply asub_sound; assumption.
   - apply ajoin_sound_l; assumption.
@@ -300,7 +300,7 @@ Proof.
 Qed.
 
 (* every value of the template, in every draw, meets the requirement *)
-Corollary fits_every_draw t r : fits (abs t) r = true -> forall w, den t w -> Gv r w.
+Corollary fits_every_draw kinds t r : fits (abs (map aklang kinds) t) r = true -> forall w, den kinds t w -> Gv r w.
 Proof. intros H w Hd. eapply fits_sound; [exact H|apply abs_sound, Hd]. Qed.
 
 (* ---- tables of leaves (the shape of gen/Scenarios.v) *)
@@ -311,23 +311,24 @@ Fixpoint req_of (tag key : bytes) (t : list (bytes * bytes * list av)) : option 
   | (tg, k, rs) :: r => if bytes_eqb tag tg && bytes_eqb key k then Some rs else req_of tag key r
   end.
 
-Definition leaf_ok (reqs : list (bytes * bytes * list av)) (l : bytes * bytes * tm) : bool :=
+Definition leaf_ok (tbl : list aval) (reqs : list (bytes * bytes * list av)) (l : bytes * bytes * tm) : bool :=
   let '(tag, key, t) := l in
   match req_of tag key reqs with
-  | Some rs => let a := abs t in existsb (fits a) rs
+  | Some rs => let a := abs tbl t in existsb (fits a) rs
   | None => false
   end.
 
 Definition indices_ok (n : nat) (sl : list (bytes * list nat)) : bool :=
   forallb (fun fl => forallb (fun i => Nat.ltb i n) (snd fl)) sl.
 
-Theorem table_fits (leaves : list (bytes * bytes * tm)) reqs (sl : list (bytes * list nat)) :
-  forallb (leaf_ok reqs) leaves = true -> indices_ok (length leaves) sl = true ->
+Theorem table_fits kinds tbl (leaves : list (bytes * bytes * tm)) reqs (sl : list (bytes * list nat)) :
+  map aklang kinds = tbl ->
+  forallb (leaf_ok tbl reqs) leaves = true -> indices_ok (length leaves) sl = true ->
   forall file idxs i, In (file, idxs) sl -> In i idxs ->
   exists tag key t rs, nth_error leaves i = Some (tag, key, t) /\ req_of tag key reqs = Some rs /\
-    forall w, den t w -> exists r, In r rs /\ Gv r w.
+    forall w, den kinds t w -> exists r, In r rs /\ Gv r w.
 Proof.
-  intros HL HI file idxs i Hf Hi.
+  intros Htbl HL HI file idxs i Hf Hi. subst tbl.
   unfold indices_ok in HI. rewrite forallb_forall in HI.
   specialize (HI _ Hf). cbn [snd] in HI. rewrite forallb_forall in HI. specialize (HI _ Hi).
   apply Nat.ltb_lt in HI.
@@ -336,5 +337,5 @@ Proof.
   destruct (req_of tag key reqs) as [rs|] eqn:Er; [|discriminate].
   exists tag, key, t, rs. split; [reflexivity|]. split; [exact Er|].
   intros w Hd. apply existsb_exists in HL. destruct HL as (r & Hr & Hfit).
-  exists r. split; [exact Hr|]. exact (fits_every_draw t r Hfit w Hd).
+  exists r. split; [exact Hr|]. exact (fits_every_draw kinds t r Hfit w Hd).
 Qed.
